@@ -564,7 +564,7 @@ def generate(unit_dir, features=("parallel", "shred-derive"), mode="T", active=N
             if cur_owner is not None:
                 em.add("}", part="gen")
             if owner is not None:
-                em.add(owner + " {", part="gen")
+                em.add(owner + ("" if "{" in owner else " {"), part="gen")
             cur_owner = owner
         key = it_spec["key"]
         if it_spec["kind"] == "fn":
